@@ -15,7 +15,9 @@ PATH = os.path.join(VERIF, 'known_findings.json')
 MECH_KEYS = ('exc', 'func', 'file', 'kind', 'direction', 'hot_slower', 'zero_work', 'substep',
              'started_at_zero', 'two_ingests_overlap', 'dist', 'runtime_zero', 'op',
              'machine_state', 'ingest', 'column', 'paused', 'stage', 'reason', 'pairing_family',
-             'below_zero', 'admissions_had_room', 'ingests_overlapped', 'deposits_as_specified')
+             'below_zero', 'admissions_had_room', 'ingests_overlapped', 'deposits_as_specified',
+             'capacities_unchanged', 'lists_unchanged', 'transfer_markers_unchanged',
+             'concurrent_move_in_flight')
 
 
 def load():
